@@ -157,12 +157,12 @@ fn new_id(ty: u32, val: u64, clone_of: u32) -> u32 {
 }
 
 /// Alignment markers.
-pub trait Al: 'static + Copy + Send + Sync {
+pub trait Al: 'static + Copy + Send + Sync + PartialEq + Eq + std::fmt::Debug + Default {
     const ALIGN: usize;
 }
 macro_rules! al {
     ($n:ident, $a:literal) => {
-        #[derive(Clone, Copy)]
+        #[derive(Clone, Copy, PartialEq, Eq, Debug, Default)]
         #[repr(align($a))]
         pub struct $n;
         impl Al for $n {
